@@ -96,11 +96,18 @@ func genKnobs(t *core.Tape, kind Kind) simhttp.Knobs {
 	if t.Bool(1, 4, "pumplag") {
 		k.PumpLag = lags[t.Choose(len(lags), "pumplag.us")] * time.Microsecond
 	}
+	if t.Bool(1, 4, "arrivelag") {
+		// transit time: a deadline sent as a timeout ends later on the server
+		// than on the client
+		k.ArriveLag = lags[t.Choose(len(lags), "arrivelag.us")] * time.Microsecond
+	}
 	if t.Bool(1, 4, "finishlag") {
 		k.FinishLag = lags[t.Choose(len(lags), "finishlag.us")] * time.Microsecond
 	}
 	if !k.HTTP2 {
 		k.H1Close = t.Bool(1, 2, "h1close")
+		k.H1LateClose = t.Bool(1, 2, "h1lateclose")
+		k.H1LateCloseSlow = k.H1LateClose && t.Bool(1, 2, "h1lateclose.slow")
 	}
 	if k.HTTP2 {
 		k.Lazy = t.Bool(1, 4, "lazy")
